@@ -1,5 +1,5 @@
 From Coq Require Import ZArith List Bool.
-From PM Require Import Lib.Py Gen.Murmur3 Gen.Rendezvous Spec.MurmurRef Spec.Hrw Proofs.C11Proof.
+From PM Require Import Lib.Py Gen.Murmur3 Gen.Rendezvous Spec.MurmurRef Spec.Hrw Proofs.C11Proof Model.ServerSpec.
 Import ListNotations.
 Open Scope Z_scope.
 Definition zadd := Z.add. Definition zmul := Z.mul.
@@ -38,5 +38,6 @@ Definition dispatch (fid : Z) (args : list dyn) : exc dyn :=
       | Some ns => match owner_exec (fun s => table_lookup table s dflt) ks ns with Some w => Ok (DStr w) | None => Ok DNone end
       | None => Raise TypeError end
   | 7, [k] => bind (py_str k) (fun s => Ok (DStr s))
+  | 8, [spec] => node_name spec
   | _, _ => Raise TypeError
   end.
